@@ -571,6 +571,8 @@ class Interp:
                 return True
             if isinstance(x, K) and all(not isinstance(o, tuple) for o in coll.items):
                 return False
+            if all(not isinstance(o, tuple) or o[:1] not in (('sym',), ('t',), ('p',)) for o in list(coll.items) + [k]):
+                return False        # constants and objects keyed by their own __hash__ result: absent means not a member
             if getattr(self, 'INJECTIVE_KEYS', False):
                 return False
             return None if coll.items else False
